@@ -149,6 +149,9 @@ func RunLife(sc LifeScenario) (evs []Ev, inconclusive string) {
 	if sc.Directed == "syncstop" {
 		s.AddSyncSink(mkSink("s1", "park"))
 		s.AddSyncSink(mkSink("s2", "fast"))
+	} else if sc.Directed == "stopgrace" {
+		s.AddSyncSink(mkSink("s1", "park"))
+		s.AddSink(mkSink("a1", "fast"))
 	} else {
 		s.AddSyncSink(mkSink("s1", beh))
 		s.AddSink(mkSink("a1", beh))
@@ -198,6 +201,29 @@ func RunLife(sc LifeScenario) (evs []Ev, inconclusive string) {
 		case <-time.After(10 * time.Second):
 			log(Ev{"e": "deadlock", "q": atomic.AddInt64(&seq, 1)})
 		}
+	case "stopgrace":
+		// a synchronous sink blocks (a stuck downstream): Stop must still return within its grace period
+		for i := 1; i <= 6; i++ {
+			guard("Emit", func() { s.Emit(row(i)) })
+		}
+		select {
+		case <-entered:
+		case <-time.After(5 * time.Second):
+			return evs, "no delivery reached the blocking sink"
+		}
+		stopDone := make(chan struct{})
+		go func() { stop(1); close(stopDone) }()
+		select {
+		case <-stopDone:
+		case <-time.After(9 * time.Second): // Stop is stuck behind the blocked sink: release it so that the scenario ends (stop.ret then reports > grace)
+		}
+		close(gate1)
+		select {
+		case <-stopDone:
+		case <-time.After(10 * time.Second):
+			log(Ev{"e": "deadlock", "q": atomic.AddInt64(&seq, 1)})
+		}
+		time.Sleep(30 * time.Millisecond)
 	case "afterstop":
 		for i := 1; i <= 4; i++ { // v = 0, 1, 2, 3: for the CEP query an A+ run is still open at Stop and must be flushed
 			guard("Emit", func() { s.Emit(row(i)) })
